@@ -15,7 +15,7 @@ SPEC = dict(
         "C13_backup_marks/_current/_full_current (clause 3: a completed backup lacking any eligible file has manifest.skipped_files "
         "> 0), C13_backup_status, C13_backup_ratio, C13_restore_counts. Known-bad shapes are theorems: C13_restore_honest_witness "
         "(per-file continue, the finding fixed in 79c3a87), C13_restore_masked_witness (a later step's success overwrites the data "
-        "error), C13_backup_retry_witness (a read retry into the un-reset temp file stores prefix++content, 0 skipped). The number "
+        "error), C13_restore_noparquet_witness (data step skipped when total_files = 0 although the backup holds Iceberg metadata; the regenerated fact dataSkippedWhenNoParquet must be false), C13_backup_retry_witness (a read retry into the un-reset temp file stores prefix++content, 0 skipped). The number "
         "of ReadTo/WriteReader attempts per file and whether a retry resets the temp file are regenerated facts; every clause is "
         "proved under readExact (<= 1 attempt or resetting retry), re-proved by `decide` for the current source. The model (policy + step program = regenerated facts) is diffed against the real backup.Manager over fault-injecting "
         "wrappers of the real LocalBackend and a real SQLite file: statuses, persisted manifest counts and flags, progress counters, "
